@@ -1,5 +1,4 @@
 use model::data::{Component, U32, U16, Trame, to_vec, Message, DataType, DynOption, MessageOption, Check, Array};
-use model::unicode::Unicode;
 use model::error::{RdpResult, RdpError, RdpErrorKind, Error};
 use core::per;
 use std::io::{Cursor, Read};
@@ -209,11 +208,18 @@ pub fn client_core_data(parameter: Option<ClientData>) -> Component {
             name: "".to_string()
         });
 
-    let client_name = if client_parameter.name.len() >= 16 {
-        (&client_parameter.name[0..16]).to_string()
-    } else {
-        client_parameter.name.clone() + &"\x00".repeat(16 - client_parameter.name.len())
-    };
+    // clientName is a fixed array of 16 UTF-16 code units (32 bytes)
+    // with at most 15 significant units followed by a null terminator
+    let mut client_name: Vec<u16> = Vec::new();
+    for c in client_parameter.name.chars() {
+        if client_name.len() + c.len_utf16() > 15 {
+            break;
+        }
+        let mut buffer = [0; 2];
+        client_name.extend_from_slice(c.encode_utf16(&mut buffer));
+    }
+    client_name.resize(16, 0);
+    let client_name: Vec<u8> = client_name.iter().flat_map(|c| vec![*c as u8, (*c >> 8) as u8]).collect();
 
     component![
         "version" => U32::LE(client_parameter.rdp_version as u32),
@@ -223,7 +229,7 @@ pub fn client_core_data(parameter: Option<ClientData>) -> Component {
         "sasSequence" => U16::LE(Sequence::RnsUdSasDel as u16),
         "kbdLayout" => U32::LE(client_parameter.layout as u32),
         "clientBuild" => U32::LE(3790),
-        "clientName" => client_name.to_string().to_unicode(),
+        "clientName" => client_name,
         "keyboardType" => U32::LE(KeyboardType::Ibm101102Keys as u32),
         "keyboardSubType" => U32::LE(0),
         "keyboardFnKeys" => U32::LE(12),
